@@ -144,7 +144,9 @@ func main() {
 	}
 
 	if *dump != "" {
-		if strings.HasPrefix(*dump, "paths:") {
+		if strings.HasPrefix(*dump, "ipaths:") {
+			dumpIPaths(P, strings.TrimPrefix(*dump, "ipaths:"))
+		} else if strings.HasPrefix(*dump, "paths:") {
 			dumpPaths(P, strings.TrimPrefix(*dump, "paths:"))
 		} else {
 			dumpFunc(P, *dump)
